@@ -21,7 +21,17 @@ type TDB struct {
 	delEmpty bool
 	// counters for C20
 	Reads, Writes uint64
+	// ReadLimit > 0: a state read beyond this count panics with WorkSentinel (turns unbounded loops into a verdict)
+	ReadLimit uint64
 }
+
+// WorkSentinel is the panic value raised by the counting StateDB when an execution exceeds its access budget.
+type WorkSentinel struct{ What string }
+
+func (w WorkSentinel) String() string { return "verif-sentinel:" + w.What }
+
+// IsSentinel reports whether a recovered panic text stems from a WorkSentinel.
+func IsSentinel(p string) bool { return strings.HasPrefix(p, "verif-sentinel:") }
 
 func NewTDB(db *state.StateDB) *TDB {
 	return &TDB{StateDB: db, addrs: map[common.Address]string{}, slots: map[common.Address]map[common.Hash]common.Hash{}}
@@ -85,6 +95,9 @@ func (t *TDB) Suicide(a common.Address) bool { t.touch(a); t.Writes++; return t.
 
 func (t *TDB) GetState(a common.Address, k common.Hash) common.Hash {
 	t.Reads++
+	if t.ReadLimit > 0 && t.Reads > t.ReadLimit {
+		panic(WorkSentinel{"state_reads"})
+	}
 	return t.StateDB.GetState(a, k)
 }
 func (t *TDB) GetCommittedState(a common.Address, k common.Hash) common.Hash {
